@@ -132,11 +132,14 @@ PROPS = {
     "C26": {"batches": [B("exposed_membership", "membership", 160, 1600, masks=["snapshot_install"]),
                         B("general_exposed", "general", 80, 800, masks=["snapshot_install"])]},
     "C27": {"batches": [B("membership", "membership", 180, 1800), B("general", "general", 60, 600)]},
+    "C28": {"batches": [B("membership_restarts", "membership", 200, 2000), B("general", "general", 80, 800)]},
     "C29": {"batches": [B("general", "general", 140, 1400), B("election", "election", 80, 800), B("deadline", "deadline", 60, 600)]},
     "C30": {"batches": [B("deadline", "deadline", 160, 1600), B("election", "election", 80, 800), B("general", "general", 40, 400)]},
     "C31": {"batches": [B("election", "election", 160, 1600), B("general", "general", 80, 800), B("membership", "membership", 40, 400)]},
     "C32": {"batches": [B("general", "general", 120, 1200), B("election", "election", 60, 600), B("durability", "durability", 60, 600),
                         B("lag", "lag", 40, 400)]},
+    "C33": {"batches": [B("snapshot_exposed", "snapshot", 200, 2000, masks=["batch_promote"]),
+                        B("general_exposed", "general", 80, 800, masks=["batch_promote"])]},
     "C35": {"batches": [B("routing", "routing", 120, 1200), B("general", "general", 80, 800)]},
     "C37": {"batches": [B("general", "general", 160, 1600), B("durability", "durability", 60, 600)],
             "assumptions": ["the schedule dimension adds nothing to this conservation check; it is evaluated as a side oracle of cluster runs"]},
